@@ -26,6 +26,35 @@ def gen_cp(d, idx, w):
         cp["bins"] = None
         cp["options"] = {"auto_bin_max": d.choice([64, 2, 3, 4])}
         return cp
+    if d.chance(30):
+        # binary-prefix blocks, so that some bins can be wildcard bins (still pairwise disjoint)
+        blocks = [""]
+        for _ in range(d.randint(1, 2)):
+            i = d.randint(0, len(blocks) - 1)
+            b = blocks.pop(i)
+            if len(b) < w:
+                blocks[i:i] = [b + "0", b + "1"]
+            else:
+                blocks.insert(i, b)
+        blocks = d.sample(blocks, len(blocks))
+        bins = []
+        for i, b in enumerate(blocks):
+            lo_ = int(b + "0" * (w - len(b)), 2) if w > len(b) else int(b, 2)
+            hi_ = int(b + "1" * (w - len(b)), 2) if w > len(b) else int(b, 2)
+            r = d.randint(0, 99)
+            if r < 15:
+                continue
+            if r < 60:
+                pat = "0b" + b + d.choice(["x", "?", "X"]) * (w - len(b))
+                bins.append({"name": "w%d" % i, "kind": "wild", "pats": [pat] if d.chance(70) else [{"vm": [lo_, ((1 << len(b)) - 1) << (w - len(b))]}]})
+            elif r < 80 or lo_ == hi_:
+                bins.append({"name": "s%d" % i, "kind": "bin", "items": [[lo_, hi_]] if lo_ != hi_ else [lo_]})
+            else:
+                bins.append({"name": "a%d" % i, "kind": "arr", "n": None, "items": [[lo_, hi_]]})
+        if not bins:
+            bins.append({"name": "w0", "kind": "wild", "pats": ["0b" + "x" * w]})
+        cp["bins"] = bins
+        return cp
     # cut the value range into consecutive segments
     cuts = sorted(set(d.sample(list(range(1, hi + 1)), d.randint(1, min(4, hi)))))
     segs = []
@@ -203,6 +232,8 @@ def body(case, acc):
         acc.label("coverpoint iff")
     if arr_not_first:
         acc.label("array bin not first")
+    if any(b["kind"] == "wild" for c in cg["cps"] for b in (c.get("bins") or [])):
+        acc.label("wildcard bin in a crossed coverpoint")
     if info.get("miss_hit"):
         acc.label("has miss->hit")
     if info.get("gated_hit"):
